@@ -391,6 +391,9 @@ fn check_main(args: &[String]) {
                         target_viol.push((r.clone(), v.clone()));
                     }
                 } else {
+                    if std::env::var("VERIF_LIST_VIOLATIONS").is_ok() {
+                        println!("LISTOTHER seed={} {} {} | {}", r["seed"], v["property"].as_str().unwrap_or(""), v["class"].as_str().unwrap_or(""), v["detail"].as_str().unwrap_or("").chars().take(300).collect::<String>());
+                    }
                     *other_viol.entry(format!("{} {}", v["property"].as_str().unwrap_or(""), v["class"].as_str().unwrap_or(""))).or_insert(0) += 1;
                 }
             }
